@@ -16,7 +16,7 @@ sys.path.insert(0, HERE)
 GEN_MODULES = ["gen_pcm_kernels", "gen_g711", "gen_chunk", "gen_sndfile", "gen_pcm_rw",
                "gen_command", "gen_fileio", "gen_common", "gen_open", "gen_headers",
                "gen_peak", "gen_close", "gen_strings", "gen_inventory", "gen_float",
-               "gen_adpcm", "gen_lemmas"]
+               "gen_adpcm", "gen_pairs", "gen_lemmas"]
 
 # sub-claims that no unit decides, per property (copied into every evidence file)
 NOT_DECIDED = {}
